@@ -33,7 +33,7 @@ WRITE_FLAGS = ("O_WRONLY", "O_RDWR", "O_CREAT", "O_TRUNC", "O_APPEND")
 
 
 def generate(tier, seed):
-    n = 500 if tier == "quick" else 50000
+    n = 1500 if tier == "quick" else 50000
     per = 10
     return [{"k": k, "n": per} for k in range(n // per)]
 
@@ -57,6 +57,8 @@ def build_world(ctx, rng, base, git):
     (sent / "odir" / "inner.c").write_text("int x;\n")
     (sent / "odir" / "sub").mkdir()
     (sent / "odir" / "sub" / "deep.py").write_text("x = 1\n")
+    (sent / "LICENSES").mkdir()   # a directory of that name which is not the project's
+    (sent / "LICENSES" / "README").write_text("not part of the project\n")
     os.symlink(str(sent / "outside.py"), proj / "link_to_outside_file.py")
     os.symlink(str(sent / "odir"), proj / "link_to_outside_dir")
     os.symlink("../sentinel/odir", proj / "rel_link_dir")
@@ -88,6 +90,11 @@ def build_world(ctx, rng, base, git):
         (proj / "build").mkdir()
         (proj / "build" / "out.py").write_text("o = 1\n")
         (proj / "docs2" / "also.ign").write_text("g\n")
+        # a name from an old archive: Latin-1 bytes, not UTF-8 - ignored all the same
+        with open(os.fsencode(str(proj)) + b"/caf\xe9.ign", "wb") as fp:
+            fp.write(b"g = 1\n")
+        with open(os.fsencode(str(proj / "docs2")) + b"/na\xefve.ign", "wb") as fp:
+            fp.write(b"g = 2\n")
         ignored = {"gen.ign", "build/out.py", "docs2/also.ign"}
         trees.git(top, "add", "-A", check=False)
         trees.git(top, "commit", "-q", "-m", "init", check=False)
@@ -278,7 +285,10 @@ def run_case(case, ctx):
                     ctx.count("strace_mutating_syscalls", len(muts))
                     ok = judge(res, base, proj, before, after, muts, allowed, label, cmd, git, via="strace")
                 else:
-                    cwd = rng.choice([proj, proj, proj / "docs2", sent])
+                    cwd = rng.choice([proj, proj, proj / "docs2", sent, sent / "LICENSES", proj / "LICENSES"])
+                    if label == "download" and rng.random() < 0.5:
+                        cwd = rng.choice([sent / "LICENSES", proj / "LICENSES", sent])
+                    res.cell(f"cwd:{os.path.relpath(cwd, base)}")
                     FS.begin()
                     try:
                         r = run_cli(args, cwd=str(cwd))
